@@ -261,16 +261,29 @@ def theorem_names(prop_files):
 
 
 def build_runner(race=False, module="harness", exe_name="runner"):
-    """Build a Go harness module against REPO's current working tree with -tags verif."""
-    with Lock(exe_name):
-        h = os.path.join(ROOT, module)
-        gomod = ("module verifharness\n\ngo 1.18\n\nrequire github.com/bradenaw/juniper v0.0.0\n\n"
-                 "replace github.com/bradenaw/juniper => %s\n" % REPO)
-        write_if_changed(os.path.join(h, "go.mod"), gomod)
-        shutil.copyfile(os.path.join(REPO, "go.sum"), os.path.join(h, "go.sum"))
-        exe = os.path.join(BUILD, exe_name + ("-race" if race else ""))
+    """Build a Go harness module against REPO's current working tree with -tags verif.
+    The module sources are copied to a build directory that is private to this REPO path, so that
+    checks running against different trees (VERIF_REPO) never share go.mod or binaries."""
+    rid = hashlib.sha256(REPO.encode()).hexdigest()[:10]
+    work = os.path.join(BUILD, "mods", rid, module)
+    exe = os.path.join(BUILD, "mods", rid, exe_name + ("-race" if race else ""))
+    with Lock("build_%s_%s" % (rid, exe_name)):
+        os.makedirs(work, exist_ok=True)
+        src = os.path.join(ROOT, module)
+        keep = set()
+        for f in os.listdir(src):
+            if f.endswith(".go"):
+                keep.add(f)
+                write_if_changed(os.path.join(work, f), open(os.path.join(src, f)).read())
+        for f in os.listdir(work):
+            if f.endswith(".go") and f not in keep:
+                os.remove(os.path.join(work, f))
+        gomod = ("module verif%s\n\ngo 1.18\n\nrequire github.com/bradenaw/juniper v0.0.0\n\n"
+                 "replace github.com/bradenaw/juniper => %s\n" % (re.sub(r"[^a-z0-9]", "", module.lower()), REPO))
+        write_if_changed(os.path.join(work, "go.mod"), gomod)
+        shutil.copyfile(os.path.join(REPO, "go.sum"), os.path.join(work, "go.sum"))
         cmd = ["go", "build", "-tags", "verif"] + (["-race"] if race else []) + ["-o", exe, "."]
-        rc, out = sh(cmd, cwd=h, env=GOENV, timeout=900)
+        rc, out = sh(cmd, cwd=work, env=GOENV, timeout=900)
         return rc == 0, out, exe
 
 
